@@ -135,7 +135,7 @@ ZERO_GOS = ['go movetime 0', 'go wtime 1 btime 1', 'go wtime 20 btime 20', 'go w
             'go wtime 900 btime 900 winc 500 binc 500', 'go wtime 3000 btime 3000', 'go wtime 2001 btime 2001', 'go wtime 29 btime 29']
 ZERO_POS = [(1, 'position startpos'), (0, 'position startpos moves e2e4'), (1, 'position fen r3k2r/p1ppqpb1/bn2pnp1/3PN3/1p2P3/2N2Q1p/PPPBBPPP/R3K2R w KQkq - 0 1')]
 
-def budget_zero_sessions(ctx):
+def budget_zero_sessions(ctx, sig='C10:zero-budget-not-kept', what='the budget computed for this go is 0 ms, yet the search did not end at its first poll (it went on as if it had no limit)'):
     """A budget is there to be kept: when the budget computed for a `go` is 0 ms the deadline has passed at the search's first poll, so the
     real main loop must answer at once -- no iteration completes, no info line is printed (the session model says the same).  An engine
     that computes the right number but treats 0 as 'no limit' searches on without bound: only `go infinite` and depth-limited searches may."""
@@ -157,7 +157,7 @@ def budget_zero_sessions(ctx):
         infos = [l for l in lines if l.startswith('info ')]
         nbest = sum(1 for l in lines if l.startswith('bestmove'))
         if infos or nbest != 1:
-            ctx.violation('C10:zero-budget-not-kept', 'the budget computed for this go is 0 ms, yet the search did not end at its first poll (it went on as if it had no limit)',
+            ctx.violation(sig, what,
                           {'script (delay_in_polls line)': [f'{d} {l}' for d, l in script], 'budget_reported_by_parse_go': b, 'info_lines_printed': len(infos),
                            'last_info_line': infos[-1] if infos else None, 'bestmove_lines': nbest, 'request': 'go %d %s' % (side, go[3:])})
             break
